@@ -2055,5 +2055,14 @@ def gen_pair_program(seed):
     else:
         B = [{'t': 'opt', 'b': [{'t': 'match', 'm': re_(cls())}]}, {'t': 'match', 'm': {'k': 'str', 'bytes': [33]}}]
     body = A + B + [{'t': 'match', 'm': {'k': 'str', 'bytes': [46]}}]
+    if r.random() < 0.2 and ka in (0, 1, 2, 4):
+        # loop exit through a conditional break: `loop L { A; if b0 { break L; } else { C; b0 = true; } } B` - the byte after A may continue A,
+        # start C, or (through the break) start B
+        if not any(o['name'] == 'b0' for o in outs):
+            outs = outs + [{'name': 'b0', 'type': 'bool', 'default': None}]
+        brk = [{'t': 'break', 'loop': 'L'}] if r.random() < 0.7 else [{'t': 'set', 'var': 'b0', 'e': {'k': 'bool', 'v': 0}}, {'t': 'break', 'loop': 'L'}]
+        other = [{'t': 'match', 'm': re_(cls())}, {'t': 'set', 'var': 'b0', 'e': {'k': 'bool', 'v': 1}}]
+        loop = {'t': 'loop', 'name': 'L', 'b': A + [{'t': 'if', 'br': [{'c': {'k': 'var', 'name': 'b0'}, 'b': brk}], 'els': other}]}
+        body = [loop, {'t': 'match', 'm': re_(cls())}, {'t': 'match', 'm': {'k': 'str', 'bytes': [46]}}]
     p = _mk(outs, [], [], [], body)
     return p, spell_program(p)
